@@ -177,9 +177,6 @@ pub fn random<const N: usize, P: Pad>(ctx: &mut Ctx) {
     let total = ctx.args.num("ops", 20_000);
     let with_faults = ctx.args.flag("faults");
     let repaint = ctx.args.flag("repaint") && !P::HEAP;
-    if repaint {
-        ctx.panic_props = vec!["C04", "C11"];
-    }
     ctx.can_skip = false;
     let _ = items_off::<N, P>();
     let mut rng = Rng::new(ctx.args.seed ^ hash64(&format!("random|{}|{}|{}", N, P::NAME, ctx.args.shard.0)));
